@@ -201,6 +201,17 @@ def run(tier, seed, replay=None):
             texts += [c06.gen_statement(rng) for _ in range(n)] + [c08.gen_statement(rng, c08.ALL_FEATURES) for _ in range(n)]
             texts += [plangen.gen_statement(rng, plangen.ALL_FEATURES)[0] for _ in range(n)]
             texts += [gen_create_table(rng) for _ in range(n // 2)]
+        if not replay:
+            # numeric and string literals of every spelling in expression positions (the tree keeps the value, the printed text must
+            # denote it again)
+            for _ in range(60 if tier == 'quick' else 600):
+                lits = [repr(rng.uniform(0.001, 1000)), repr(round(rng.uniform(0, 100), rng.randint(1, 15))), str(rng.randint(0, 10 ** 12)),
+                        repr(rng.uniform(0, 1)), '3.141592653589793', '0.1', '100.0', '40.712776012345', '0.' + '0' * rng.randint(1, 8) + '1',
+                        str(rng.randint(1, 9)) + '0' * rng.randint(15, 22) + '.5', "'it''s'", "'a b'"]
+                a, b, c = rng.sample(lits, 3)
+                texts.append(rng.choice(['select {a} as x, {b} from t where y = {c}', 'select * from t where a > {a} and b in ({b}, {c})',
+                                         'select a + {a} from t order by b limit 3', 'insert into t (a, b) values ({a}, {b})',
+                                         'update t set a = {a} where b < {b}']).format(a=a, b=b, c=c))
         if d == 'mindsdb' and not replay:
             texts += RAW_SECTIONS
         muts = []
@@ -279,6 +290,9 @@ def run(tier, seed, replay=None):
         if (re.search(r'[\t\n\r\\]', s) and re.search(r'\\[tnr\\]', s1)) or "'`" in s1 or \
                 (re.search(r'[^\x00-\x7f]', s) and re.search(r'\\u[0-9a-fA-F]{4}', s1)):
             out.append('command_parameter_printing')
+        if re.search(r'\d[eE][-+]?\d', s1) and not re.search(r'\d[eE][-+]?\d', s):
+            # a float written positionally comes back in exponent notation, which no lexer reads as a number
+            out.append('float_printed_in_exponent_notation')
         if (key[1] == 'tree differs' and 'alias=Identifier' in str(key) and ' AS `' in s1) or ' AS ``' in s1:
             out.append('quoted_alias_keeps_backquotes')
         return out
